@@ -57,6 +57,9 @@ type Case struct {
 	// FailFirst: before the round trip, one blob operation of the same kind is fed a reader that
 	// fails in mid-stream (its error is expected); it must not influence the round trip that follows
 	FailFirst string `json:"failFirst,omitempty"` // "", sign, verify
+	// EmptyAnn: the artifact descriptor carries an empty, non-nil annotation map (what decoding
+	// "annotations": {} yields); kept as a flag because JSON replays drop an empty map
+	EmptyAnn bool `json:"emptyAnnotations,omitempty"`
 }
 
 type failingReader struct {
@@ -279,6 +282,9 @@ func eqMap(a, b map[string]string) bool {
 // roundTrip returns (finding key, message).
 func roundTrip(c *Case) (string, string) {
 	ctx := context.Background()
+	if c.EmptyAnn && c.Kind == "oci" && len(c.Desc.Annotations) == 0 {
+		c.Desc.Annotations = map[string]string{}
+	}
 	ch := chainFor(c.KeySpec)
 	var sgn interface {
 		notation.Signer
@@ -476,8 +482,12 @@ func drawCase(rt *rapid.T) *Case {
 			maxSize = 1<<63 - 1
 		}
 		d.Size = rp.Pick(rt, "size", int64(0), 1, 528, 1<<31, 1<<32+1, maxSize-1, maxSize)
-		if rapid.Bool().Draw(rt, "hasAnnotations") {
+		switch rp.Pick(rt, "annotations", "nil", "two", "two", "empty") {
+		case "two":
 			d.Annotations = map[string]string{"org.opencontainers.image.title": "t", "own": rp.Pick(rt, "ownAnn", "a", "")}
+		case "empty":
+			d.Annotations = map[string]string{}
+			c.EmptyAnn = true
 		}
 		if rapid.IntRange(0, 2).Draw(rt, "urls") == 0 {
 			d.URLs = []string{"https://example.invalid/blob"}
@@ -534,8 +544,11 @@ func TestC07_RoundTrip(t *testing.T) {
 		if c.Kind == "oci" && (len(c.Desc.URLs) > 0 || c.Desc.Data != nil || c.Desc.Platform != nil || c.Desc.ArtifactType != "") {
 			cl = append(cl, "descriptor-extra-fields")
 		}
-		if c.Kind == "oci" && c.Desc.Annotations != nil {
+		if c.Kind == "oci" && len(c.Desc.Annotations) > 0 {
 			cl = append(cl, "artifact-annotations")
+		}
+		if c.EmptyAnn {
+			cl = append(cl, "artifact-annotations-empty-map")
 		}
 		if c.Kind == "oci" && c.Desc.Size > 1<<53 {
 			cl = append(cl, "size>2^53")
@@ -546,7 +559,7 @@ func TestC07_RoundTrip(t *testing.T) {
 				cl = append(cl, "after-failed-read")
 			}
 		}
-		rec.Case(cl, true, stats.Fingerprint(c.KeySpec, c.Format, c.Signer, c.Kind, fmt.Sprintf("%+v", c.Desc), c.BlobLen, c.BlobSeed, c.MediaType, strings.Join(mk, ";"), c.ExpirySecs, c.Identity, c.SignReader, c.VerReader, c.FailFirst), func() any { return c })
+		rec.Case(cl, true, stats.Fingerprint(c.KeySpec, c.Format, c.Signer, c.Kind, fmt.Sprintf("%+v", c.Desc), c.EmptyAnn, c.BlobLen, c.BlobSeed, c.MediaType, strings.Join(mk, ";"), c.ExpirySecs, c.Identity, c.SignReader, c.VerReader, c.FailFirst), func() any { return c })
 		key, msg := roundTrip(c)
 		if key == "harness" {
 			rt.Fatalf("harness: %s", msg)
